@@ -496,6 +496,10 @@ func genSub(env genEnv, pool string, i int) *Sub {
 	default:
 		s.Imp = mon.Pick(r, []string{"local", "localcfg"})
 	}
+	if pool == "fs" && i%20 == 7 {
+		genSpecial(r, s, i)
+		return s
+	}
 	roll := r.Intn(100)
 	switch {
 	case roll < 45:
@@ -529,4 +533,135 @@ func genSub(env genEnv, pool string, i int) *Sub {
 		genGraph(r, t, s)
 	}
 	return s
+}
+
+// ---------------------------------------------------------------------------------------
+// special fixed trees (FSImporter only): shapes the tree generator cannot express
+
+// genSpecial: (a) one from-import statement that names sub-modules of a package and plain members of the
+// package's own module side by side, in every order; (b) modules whose names differ only in letter case.
+func genSpecial(r *mon.Rand, s *Sub, i int) {
+	s.Kind, s.Imp, s.Tree = "graph", "fs", -1
+	var lines []string
+	w := &Want{}
+	obs := func(expr string, v int, class string) {
+		lines = append(lines, "out.append("+expr+")")
+		w.Out = append(w.Out, v)
+		w.Class = append(w.Class, class)
+	}
+	if (i/20)%2 == 0 {
+		s.Shape, s.Spelling, s.PathClass = "mixed-from-import", "from-mixed", "valid-nested"
+		s.Files = map[string]string{
+			"pkg.risor":     "tick(\"pkg\")\ncnt := 0\nval := 77\nfunc helper() { cnt++; return 1000 + cnt }\nfunc other() { return 2000 }\n",
+			"pkg/sub.risor": "tick(\"pkg/sub\")\ncnt := 0\nid := 5\nfunc inc() { cnt++; return cnt }\n",
+			"pkg/two.risor": "tick(\"pkg/two\")\nid := 6\nfunc inc() { return 60 }\n",
+		}
+		type nm struct{ name, kind string }
+		pool := []nm{{"sub", "mod"}, {"helper", "fn"}, {"two", "mod"}, {"other", "fn"}, {"val", "val"}}
+		p := r.Perm(len(pool))
+		k := 2 + r.Intn(4)
+		var parts []string
+		alias := map[string]string{}
+		ticks := map[string]bool{}
+		hasMember := false
+		for _, j := range p[:k] {
+			n := pool[j]
+			a := n.name
+			if r.Bool() {
+				a = fmt.Sprintf("x%d_%s", j, n.name)
+				parts = append(parts, n.name+" as "+a)
+			} else {
+				parts = append(parts, n.name)
+			}
+			alias[n.name] = a
+			if n.kind == "mod" {
+				ticks["pkg/"+n.name] = true
+			} else {
+				hasMember = true
+			}
+		}
+		if hasMember {
+			ticks["pkg"] = true
+		}
+		stmt := "from pkg import " + strings.Join(parts, ", ")
+		if r.Bool() {
+			stmt = "from pkg import (\n  " + strings.Join(parts, ",\n  ") + ",\n)"
+		}
+		helperCalls := 0
+		emit := func() {
+			for _, j := range p[:k] {
+				n := pool[j]
+				a := alias[n.name]
+				switch n.name {
+				case "sub":
+					obs(a+".id", 5, "globals")
+				case "two":
+					obs(a+".id", 6, "globals")
+					obs(a+".inc()", 60, "state")
+				case "helper":
+					helperCalls++
+					obs(a+"()", 1000+helperCalls, "state")
+				case "other":
+					obs(a+"()", 2000, "state")
+				case "val":
+					obs(a, 77, "globals")
+				}
+			}
+		}
+		switch r.Intn(3) {
+		case 0:
+			lines = append(lines, stmt)
+			emit()
+		case 1:
+			lines = append(lines, "if len(out) >= 0 {", stmt)
+			emit()
+			lines = append(lines, "}")
+		default:
+			// the statement runs twice (second time everything is loaded already)
+			lines = append(lines, "for rep := 0; rep < 2; rep++ {", stmt)
+			emit()
+			lines = append(lines, "}")
+			n := len(w.Out)
+			// second pass: same observations, helper() keeps counting
+			for q := 0; q < n; q++ {
+				v := w.Out[q]
+				if v > 1000 && v < 2000 {
+					helperCalls++
+					v = 1000 + helperCalls
+				}
+				w.Out = append(w.Out, v)
+				w.Class = append(w.Class, w.Class[q])
+			}
+		}
+		for t := range ticks {
+			w.Ticks = append(w.Ticks, t)
+		}
+	} else {
+		s.Shape, s.Spelling, s.PathClass = "case-pair", "import-str-as", "valid-nested"
+		mod := func(id string, n int) string {
+			return fmt.Sprintf("tick(%q)\nid := %d\ncnt := 0\nfunc inc() { cnt++; return cnt }\n", id, n)
+		}
+		s.Files = map[string]string{"lib/util.risor": mod("lib/util", 1), "lib/Util.risor": mod("lib/Util", 2), "Lib/util.risor": mod("Lib/util", 3), "tool.risor": mod("tool", 4), "Tool.risor": mod("Tool", 5)}
+		ids := []string{"lib/util", "lib/Util", "Lib/util", "tool", "Tool"}
+		vals := []int{1, 2, 3, 4, 5}
+		p := r.Perm(len(ids))
+		k := 2 + r.Intn(4)
+		incs := map[int]int{}
+		for q, j := range p[:k] {
+			h := fmt.Sprintf("h%d", q)
+			lines = append(lines, fmt.Sprintf("import %q as %s", ids[j], h))
+			obs(h+".id", vals[j], "globals")
+			incs[j]++
+			obs(h+".inc()", incs[j], "state")
+			w.Ticks = append(w.Ticks, ids[j])
+		}
+		// again, in another order: state is per module
+		for q := k - 1; q >= 0; q-- {
+			j := p[q]
+			incs[j]++
+			obs(fmt.Sprintf("h%d.inc()", q), incs[j], "state")
+		}
+	}
+	s.Main = "out := []\n" + strings.Join(lines, "\n") + "\nout\n"
+	s.Want = w
 }
